@@ -210,6 +210,42 @@ def shared_pool_case(draw):
     return {"version": 1, "npal": npal, "paints": paints, "advs": advs, "vbmode": vbmode, "comp": [1, 0, 0, 1, 0, 0], "unsupported": None}
 
 
+def fixed_rows():
+    """Hand-made fonts judged on every run, one per structure that seeded changes showed to matter: a colour glyph referenced
+    under a transform (alone and among layers), two non-commuting transforms above a glyph, a transform above a gradient, one
+    gradient shared by glyphs, an opacity group over layers, palette extras, and a COLRv0 font."""
+    cl = lambda ext="pad": {"ColorStop": [{"StopOffset": 0.0, "PaletteIndex": 0, "Alpha": 1.0}, {"StopOffset": 0.6, "PaletteIndex": 1, "Alpha": 0.5},
+                                          {"StopOffset": 1.0, "PaletteIndex": 2, "Alpha": 1.0}], "Extend": ext}
+    lin = {"Format": 4, "ColorLine": cl(), "x0": 100, "y0": 100, "x1": 500, "y1": 250, "x2": 50, "y2": 400}
+    rad = {"Format": 6, "ColorLine": cl("reflect"), "x0": 330, "y0": 280, "r0": 20, "x1": 300, "y1": 300, "r1": 260}
+    solid = lambda i, a=1.0: {"Format": 2, "PaletteIndex": i, "Alpha": a}
+    g = lambda name, paint: {"Format": 10, "Glyph": name, "Paint": paint}
+    base = {"version": 1, "npal": 1, "advs": {}, "vbmode": "region", "comp": [0.8, 0, 0, 1.1, 40, -30], "unsupported": None, "black_alpha": 1.0}
+
+    def row(paints, **kw):
+        d = dict(base, **kw)
+        d["paints"] = OrderedDict(paints)
+        d["advs"] = {k: [1000, 600, 1400, 400][i % 4] for i, k in enumerate(d["paints"])}
+        return d
+
+    yield row([("c0", g("sq", solid(0))),
+               ("c1", {"Format": 12, "Transform": (0.8, 0.2, -0.1, 0.9, 150, -60), "Paint": {"Format": 11, "Glyph": "c0"}}),
+               ("c2", {"Format": 1, "Layers": [g("tri", lin), {"Format": 14, "dx": 220, "dy": 140, "Paint": {"Format": 11, "Glyph": "c0"}}]}),
+               ("c3", {"Format": 22, "scale": 0.6, "centerX": 400, "centerY": 300, "Paint": {"Format": 11, "Glyph": "c2"}})])
+    yield row([("c0", {"Format": 14, "dx": 180, "dy": 90, "Paint": {"Format": 24, "angle": 35.0, "Paint": g("ring", rad)}}),
+               ("c1", {"Format": 24, "angle": 35.0, "Paint": {"Format": 16, "scaleX": 1.5, "scaleY": 0.6, "Paint": g("tri", solid(1, 0.5))}}),
+               ("c2", g("sq", {"Format": 28, "xSkewAngle": 20.0, "ySkewAngle": -10.0, "Paint": {"Format": 14, "dx": 60, "dy": 30, "Paint": lin}}))], npal=2)
+    yield row([("c0", {"Format": 1, "Layers": [g("sq", lin), g("tri", rad)]}),
+               ("c1", {"Format": 1, "Layers": [g("comp", rad), g("ring", solid(0xFFFF)), g("tri", lin)]}),
+               ("c2", {"Format": 32, "CompositeMode": "src_in", "SourcePaint": {"Format": 1, "Layers": [g("sq", solid(3)), g("tri", solid(2, 0.5))]},
+                       "BackdropPaint": {"Format": 2, "PaletteIndex": 3, "Alpha": 0.5}})], npal=3, vbmode="offset", black_alpha=0.5)
+    yield row([("c0", [("sq", 0), ("tri", 1), ("ring", 0xFFFF)]), ("c1", [("comp", 2), ("sq", 1)])], version=0, npal=2, vbmode="square")
+
+
+def enumerate_cases(tier):
+    yield from fixed_rows()
+
+
 def cases(tier):
     return st.one_of(font_case(), font_case(), font_case(), shared_pool_case())
 
